@@ -301,10 +301,12 @@ class ExprGen:
         R = self.R
         if d <= 0 or R.random() < 0.3:
             return R.choice([("n", lambda a: a["n"]), ("7", lambda a: 7), ("xs.len()", lambda a: len(a["xs"])), ("(n)", lambda a: a["n"]), ("s.len()", lambda a: len(a["s"].encode()))])
-        k = R.randrange(9)
+        k = R.randrange(10)
         A, fa = self.int_expr(d - 1); B, fb = self.int_expr(d - 1)
         sp = R.choice(["", " "])
         if k == 0: return "(%s%s+%s%s)" % (A, sp, sp, B), lambda a: fa(a) + fb(a)
+        # two groups side by side: the text starts with ( and ends with ) without being one group (only usable inside @( ) or another group)
+        if k == 9: return "(%s+1)%s*%s(%s+2)" % (A, sp, sp, B), lambda a: (fa(a) + 1) * (fb(a) + 2)
         if k == 1:
             body = "".join(R.choice([" ", ")", "]", "}", "(", '"', "'", "*", "**", "x", "/", " * ", "@", "\\"]) for _ in range(R.randint(0, 5)))
             body = body.replace("*/", "* /") + R.choice(["", "*", "**", " ", "***"])
@@ -370,7 +372,8 @@ def end_kind(src):
     return "name"
 
 FOLLOWERS = [(" x", "space"), ("<b>", "lt"), (". ", "dot-space"), (".)", "dot-paren"), ("@@", "at"), ("@n", "at-expr"), (",", "comma"), (")", "rparen"), ("", "eof"),
-             ("]", "rbracket"), ("\n", "newline"), ("!", "bang"), ("! (", "bang-space"), (";", "semi"), ("-1", "minus"), ("é", "non-ascii"), ("::", "colons-eof"), (":: x", "colons-space"), ("'", "quote")]
+             ("]", "rbracket"), ("\n", "newline"), ("!", "bang"), ("! (", "bang-space"), (";", "semi"), ("-1", "minus"), ("é", "non-ascii"), ("::", "colons-eof"), (":: x", "colons-space"), ("'", "quote"),
+             ('."', "dot-quote"), ('."</p>', "dot-quote-text"), ('::"', "colons-quote"), ('. "', "dot-space-quote")]
 def run_c05(pid, tier):
     chk0 = None
     def mk(rng): return Gen(rng, depth=0)
@@ -473,8 +476,9 @@ C13_TYPES = [  # (declared type, rust value, how the body prints it, expected te
     ("Content", '|o| { use std::io::Write; o.write_all(b"<blk>") }', "@:{x}()", "<blk>"),
     # a user type that is itself called Content, behind a prefix the type grammar separates with a space: not a block parameter
     ("(u8,)", "(5,)", "@{x}.0", "5"), ("&[(u32,)]", "&[(1,), (2,)]", "@{x}.len()", "2"), ("Vec<(&'a str,)>", 'vec![("v",)]', "@{x}[0].0", "v"), ("Map<u8, (u8,),>", "Map::new()", "@{x}.len()", "0"),
-    ("&'a Content", "&Content", "@{x}", "UC"), ("&'_ Content", "&Content", "@{x}", "UC"), ("& Content", "&Content", "@{x}", "UC"), ("&'a  Content", "&Content", "@{x}", "UC"),
-    ("Option<&'a Content>", "Some(&Content)", "@{x}.unwrap()", "UC"), ("&[Content]", "&[Content, Content]", "@{x}.len()", "2"), ("(u8, Content)", "(1, Content)", "@{x}.1", "UC"),
+    ("Content<'a>", "CV", "@{x}", "UC"), ("Content<'_>", "CV", "@{x}", "UC"), ("&'a Content<'a>", "&CV", "@{x}", "UC"), ("Vec<Content<'a>,>", "vec![CV]", "@{x}.len()", "1"),
+    ("&'a Content", "&CV", "@{x}", "UC"), ("&'_ Content", "&CV", "@{x}", "UC"), ("& Content", "&CV", "@{x}", "UC"), ("&'a  Content", "&CV", "@{x}", "UC"),
+    ("Option<&'a Content>", "Some(&CV)", "@{x}.unwrap()", "UC"), ("&[Content]", "&[CV, CV]", "@{x}.len()", "2"), ("(u8, Content)", "(1, CV)", "@{x}.1", "UC"),
 ]
 C13_NAMES = ["a", "bb", "_ructe_out_x", "W_", "io", "content", "Content_", "x1", "self_", "out", "w", "Z9"]
 def run_c13(pid, tier):
@@ -485,14 +489,17 @@ def run_c13(pid, tier):
                "impl fmt::Display for ContentType { fn fmt(&self, f: &mut fmt::Formatter) -> fmt::Result { f.write_str(\"CT\") } }\n"
                "impl fmt::Display for Contents { fn fmt(&self, f: &mut fmt::Formatter) -> fmt::Result { f.write_str(\"CS\") } }\n"
                "impl fmt::Display for MyContent { fn fmt(&self, f: &mut fmt::Formatter) -> fmt::Result { f.write_str(\"MC\") } }\n"
-               "pub struct Content; impl fmt::Display for Content { fn fmt(&self, f: &mut fmt::Formatter) -> fmt::Result { f.write_str(\"UC\") } }\n"
+               "pub struct Content<'a>(pub std::marker::PhantomData<&'a ()>); pub const CV: Content<'static> = Content(std::marker::PhantomData);\n"
+               "impl<'a> fmt::Display for Content<'a> { fn fmt(&self, f: &mut fmt::Formatter) -> fmt::Result { f.write_str(\"UC\") } }\n"
                "pub mod models { pub struct Portfolio; pub struct Studio; pub mod audio {} }\npub mod util { pub struct SafeHtml; pub struct NotToHtml; pub trait LineWrite {} pub mod stdio {} pub fn html() {} pub fn write() {} }\n")
     USES = ["std::fmt::Display", "std::collections::HashMap as Map", "crate::{ContentType, Contents, MyContent}", "crate::Content", "std::cmp::*", "std::fmt::{self, Write as FmtWrite}",
             # imported names that end in / resemble the names the generated header itself imports (io, Write, Html, ToHtml)
             "crate::models::Portfolio", "crate::models::Studio", "crate::models::audio", "crate::util::SafeHtml", "crate::util::NotToHtml", "crate::util::LineWrite", "crate::util::stdio",
             "crate::util::html", "crate::util::write", "std::io::BufWriter", "std::io::Write as IoWrite", "crate::util::{SafeHtml as H2}", "std::fmt::Write as _",
             # several glob imports in one preamble
-            "std::collections::*", "std::iter::*", "crate::models::*"]
+            "std::collections::*", "std::iter::*", "crate::models::*",
+            # items written over several lines: a line break as the only separator before `as`, inside a brace list, after `use`
+            "std::collections::BTreeMap\n    as Map3", "std::collections::{\n    BTreeSet as S1,\n    VecDeque\n        as Q1,\n}", "std::rc::Rc\n\tas R1"]
     cases = []
     for i in range(n):
         k = rng.randint(0, 8)
@@ -559,6 +566,23 @@ def run_c13(pid, tier):
             chk.cov["renderings"] = chk.cov.get("renderings", 0) + 1
             if r is None or r[1] != "ok" or r[0] != c["expect"][0]:
                 oracle_fail.append((c["canon"], "parameters do not reach the body in declared order / as declared", dict(got=(r[0].decode("utf8", "replace") if r else None), want=c["expect"][0].decode())))
+    # a declaration edited without changing the length of the generated code, compiled again into the same OUT_DIR:
+    # the signature on disk must be the one declared now
+    import build_lib
+    edits = [("@(first: u8, other: i32)\n@first@other", "@(other: i32, first: u8)\n@first@other", "  other: i32,\n  first: u8,\n"),
+             ("@(n: i32)\n@n", "@(n: u64)\n@n", "  n: u64,\n"),
+             ("@<'a, 'b>(x: &'a str, y: &'b str)\n@x@y", "@<'b, 'a>(x: &'b str, y: &'a str)\n@x@y", "pub fn s_html<'b, 'a, W>("),
+             ("@use std::fmt::Debug;\n@(x: u8)\n@x", "@use std::fmt::Write;\n@(x: u8)\n@x", "use std::fmt::Write;\n"),
+             ("@(c: Content, t: u8)\n@:c()@t", "@(t: u8, c: Content)\n@:c()@t", "  t: u8,\n  c: impl FnOnce(&mut W) -> io::Result<()>,\n")]
+    scen = [[('W', 't/s.rs.html', v1), ('R', [('c', 't')]), ('W', 't/s.rs.html', v2), ('R', [('c', 't')])] for v1, v2, _ in edits]
+    for (v1, v2, must), r in zip(edits, build_lib.run_scenarios(scen)):
+        chk.count(("rebuild " + v2).encode(), True)
+        runs = [x for x in r["runs"] if x["kind"] == "R"]
+        got = ((runs[1]["after"].get(b"templates/template_s_html.rs") or (b"", ""))[0] or b"") if len(runs) > 1 and runs[1]["after"] else b""
+        if must.encode() not in got:
+            oracle_fail.append((v2.encode(), "after the declaration was edited (same length of generated code) and the template rebuilt into the same OUT_DIR, the generated signature is not the declared one (expected %r)" % must, dict(code=got.decode("utf8", "replace")[:900], before=v1)))
+        elif len(runs) > 1 and "model" in runs[1] and runs[1]["model"].get("fs", {}).get(b"templates/template_s_html.rs") not in (None, got):
+            disagree.append((v2.encode(), "OK " + got.hex(), "OK " + runs[1]["model"]["fs"][b"templates/template_s_html.rs"].hex()))
     for c in cases[:3]: chk.sample(dict(template=c["canon"].decode(), call_args=c["args"]))
     chk.notes["disagreements_model_vs_impl"] = len(disagree); chk.notes["oracle_failures"] = len(oracle_fail)
     chk.cov["rule"] = ("parameter lists of 0..8 parameters over %d declared types (references, named and anonymous lifetimes, slices, tuples and generics with trailing commas, impl/dyn, user types Content / ContentType / Contents / MyContent / "
